@@ -1,8 +1,10 @@
 (* C08 — local addresses are stripped from SDP, nothing else is lost.
    Statements over Model/IpClass.v (util.IsLocal and the net.IP methods) and Model/SdpStrip.v
    (util.StripLocalAddresses over the parsed description; see that file for the library boundary). *)
+From Coq Require Import String.
 From Coq Require Import List NArith Bool.
 From Snow Require Import Lib.Wire Model.IpClass Model.SdpStrip Proofs.IpClassProofs Proofs.SdpStripProofs.
+From Snow Require Import Model.SdpStripLines Proofs.SdpStripLinesProofs.
 Import ListNotations.
 Open Scope N_scope.
 
@@ -95,3 +97,118 @@ Proof. exact strip_idempotent. Qed.
 Theorem C08_total : forall p : option description,
   strip_text p = Unchanged \/ exists d, strip_text p = Stripped d.
 Proof. exact strip_text_total. Qed.
+
+(* ------------------------------------------------------------------------------------------------
+   The whole description, line by line (Model/SdpStripLines.v: session part, media heads and all
+   attribute lines in the order pion/sdp writes them; a line's id stands for its exact text).
+
+   "Every other candidate and every other field of the description is preserved in order": the lines of
+   the output ARE the lines of the input with exactly the local host candidate lines removed - same
+   order, every remaining line identical; the last two clauses say the same without naming [filter]. *)
+Theorem C08_lines_preserved : forall d : sdesc,
+  marshal (strip_sdesc d) = filter (fun l => negb (bad_host_line l)) (marshal d)
+  /\ Sublist (marshal (strip_sdesc d)) (marshal d)
+  /\ (forall l, In l (marshal (strip_sdesc d)) <-> In l (marshal d) /\ bad_host_line l = false).
+Proof. exact lines_preserved. Qed.
+
+(* the removed lines are exactly the media-level a=candidate lines parsed as host candidates with a
+   local / unspecified / loopback address *)
+Theorem C08_removed_lines_exactly : forall l : line,
+  bad_host_line l = true <->
+  exists ip, l_kind l = KAttr (Cand Host (Some ip)) /\ (is_local ip || is_unspecified ip || is_loopback ip) = true.
+Proof. exact bad_host_line_spec. Qed.
+
+Theorem C08_no_local_line_left : forall (d : sdesc) (l : line) (ip : bytes),
+  In l (marshal (strip_sdesc d)) -> l_kind l = KAttr (Cand Host (Some ip)) ->
+  is_local ip = false /\ is_unspecified ip = false /\ is_loopback ip = false.
+Proof. exact no_local_line_left_addr. Qed.
+
+(* session-level lines (session-level a=candidate included), m= lines and the i=/c=/b=/k= lines of the
+   media sections come out one for one; so does every attribute line that is not such a candidate *)
+Theorem C08_other_fields_identical : forall d : sdesc,
+  filter (fun l => negb (is_attr_line l)) (marshal (strip_sdesc d)) = filter (fun l => negb (is_attr_line l)) (marshal d)
+  /\ filter (fun l => negb (bad_host_line l)) (marshal (strip_sdesc d)) = filter (fun l => negb (bad_host_line l)) (marshal d)
+  /\ sd_session (strip_sdesc d) = sd_session d
+  /\ map ms_head (sd_media (strip_sdesc d)) = map ms_head (sd_media d)
+  /\ map ms_attrs (sd_media (strip_sdesc d)) = strip (map ms_attrs (sd_media d)).
+Proof.
+  intros d. split; [apply non_attr_lines_identical|]. split; [apply kept_lines_identical|].
+  split; [apply strip_sdesc_rest|]. split; [apply strip_sdesc_rest|apply strip_sdesc_attrs].
+Qed.
+
+Theorem C08_clean_lines_unchanged : forall d : sdesc,
+  (forall l, In l (marshal d) -> bad_host_line l = false) -> marshal (strip_sdesc d) = marshal d.
+Proof. exact clean_lines_unchanged. Qed.
+
+Example C08_lines_nonvacuous :
+  let loc := mkAttr 7 (Cand Host (Some [192;168;1;7])) in
+  let pub := mkAttr 8 (Cand Host (Some [192;0;2;7])) in
+  let d := mkSdesc [0; 1; 2; 3; 4] [mkMsec [5; 6] [loc; mkAttr 9 Other; pub]; mkMsec [10] [loc]] in
+  map l_id (marshal d) = [0; 1; 2; 3; 4; 5; 6; 7; 9; 8; 10; 7]
+  /\ map l_id (marshal (strip_sdesc d)) = [0; 1; 2; 3; 4; 5; 6; 9; 8; 10]
+  /\ (forall l, In l (marshal (mkSdesc [0] [mkMsec [1] [pub]])) -> bad_host_line l = false).
+Proof.
+  repeat split; try reflexivity.
+  intros l [E|[E|[E|[]]]]; subst l; reflexivity.
+Qed.
+
+(* ------------------------------------------------------------------------------------------------
+   "Unless local addresses are explicitly kept": the two call sites.  [to_send keep p] is the SDP text
+   inside the message for the broker ([Original] = the very string the peer connection produced).
+
+   Flag off: what is sent is never the original text of a parsable description (there is no fall-back to
+   the unstripped text, not even when every candidate was local) and none of its lines is a local host
+   candidate; flag on: the original text, untouched. *)
+Theorem C08_sent_stripped_unless_kept : forall (p : option sdesc),
+  to_send true p = Original
+  /\ (to_send false p = Original -> p = None)
+  /\ (forall l, to_send false p = Lines l ->
+        (forall x, In x l -> bad_host_line x = false)
+        /\ exists d, p = Some d /\ l = filter (fun x => negb (bad_host_line x)) (marshal d)).
+Proof.
+  intros p. split; [apply to_send_keep|]. split; [apply to_send_original_only_unparsable|apply to_send_strips].
+Qed.
+
+Example C08_sent_all_local_nonvacuous :
+  let loc := mkAttr 3 (Cand Host (Some [10;0;0;1])) in
+  to_send false (Some (mkSdesc [0] [mkMsec [1; 2] [loc; mkAttr 4 (Cand Host (Some [127;0;0;1]))]]))
+  = Lines [mkLine 0 KSession; mkLine 1 KHead; mkLine 2 KHead].
+Proof. reflexivity. Qed.
+
+(* client: the channel built by newBrokerChannelFromConfig carries config.KeepLocalAddresses and nothing
+   else decides: not the broker URL, the AMP cache URL or the front domain *)
+Theorem C08_client_offer : forall (cfg : client_config) (urls_ok : bool) (p : option sdesc) (s : sent),
+  client_offer_sent cfg urls_ok p = Some s ->
+  (cc_keep cfg = true -> s = Original)
+  /\ (cc_keep cfg = false ->
+        (s = Original /\ p = None)
+        \/ exists d, p = Some d /\ s = Lines (filter (fun x => negb (bad_host_line x)) (marshal d))
+                     /\ forall x, In x (filter (fun x => negb (bad_host_line x)) (marshal d)) -> bad_host_line x = false).
+Proof. exact client_site. Qed.
+
+Theorem C08_client_urls_irrelevant : forall (cfg cfg' : client_config) (p : option sdesc),
+  cc_keep cfg = cc_keep cfg' -> client_offer_sent cfg true p = client_offer_sent cfg' true p.
+Proof. exact client_site_urls_irrelevant. Qed.
+
+Example C08_client_offer_nonvacuous :
+  let d := mkSdesc [0] [mkMsec [1] [mkAttr 2 (Cand Host (Some [192;168;0;2])); mkAttr 3 (Cand Srflx (Some [192;0;2;9]))]] in
+  client_offer_sent (mkCC (bs "http://127.0.0.1:8080/") [] [] false) true (Some d)
+    = Some (Lines [mkLine 0 KSession; mkLine 1 KHead; mkLine 3 (KAttr (Cand Srflx (Some [192;0;2;9])))])
+  /\ client_offer_sent (mkCC (bs "https://broker.example/") [] [] true) true (Some d) = Some Original.
+Proof. split; reflexivity. Qed.
+
+(* proxy: sendAnswer on a SignalingServer built by newSignalingServer(url, keep) *)
+Theorem C08_proxy_answer : forall (url : bytes) (url_ok keep : bool) (p : option sdesc) (s : sent),
+  proxy_answer_sent url url_ok keep p = Some s ->
+  (keep = true -> s = Original)
+  /\ (keep = false ->
+        (s = Original /\ p = None)
+        \/ exists d, p = Some d /\ s = Lines (filter (fun x => negb (bad_host_line x)) (marshal d))
+                     /\ forall x, In x (filter (fun x => negb (bad_host_line x)) (marshal d)) -> bad_host_line x = false).
+Proof. exact proxy_site. Qed.
+
+Example C08_proxy_answer_nonvacuous :
+  proxy_answer_sent (bs "http://broker/") true false (Some (mkSdesc [0] [mkMsec [1] [mkAttr 2 (Cand Host (Some [10;1;2;3]))]]))
+    = Some (Lines [mkLine 0 KSession; mkLine 1 KHead])
+  /\ proxy_answer_sent (bs "http://broker/") true true None = Some Original.
+Proof. split; reflexivity. Qed.
